@@ -59,20 +59,25 @@ Proof.
   intros Hf. induction l as [|a l IH]; intros m; simpl; [reflexivity|]. now rewrite IH, Hf.
 Qed.
 
+Lemma cfg_rotate_others m1 f both :
+  (forall m i, m_cfg (f m i) = m_cfg m) -> m_cfg (rotate_others m1 f both) = m_cfg m1.
+Proof.
+  intros Hf. unfold rotate_others. apply cfg_fold. intros m i.
+  destruct (nth_error (m_streams m) i) as [s|]; [|reflexivity].
+  destruct (st_leading s); [reflexivity|].
+  destruct (leading_stream (f m i)); [unfold upd_stream; cbn [set_stream m_cfg]|]; apply Hf.
+Qed.
+
 Lemma cfg_rotateParts m d : m_cfg (rotateParts m d) = m_cfg m.
 Proof.
-  unfold rotateParts. rewrite cfg_fold.
-  - apply cfg_stream_rotateParts.
-  - intros m' i. destruct (leading_stream _); [unfold upd_stream; cbn [set_stream m_cfg]|];
-      apply cfg_stream_rotateParts.
+  unfold rotateParts. rewrite cfg_rotate_others; [apply cfg_stream_rotateParts|].
+  intros; apply cfg_stream_rotateParts.
 Qed.
 
 Lemma cfg_rotateSegments m d ntp f : m_cfg (rotateSegments m d ntp f) = m_cfg m.
 Proof.
-  unfold rotateSegments. rewrite cfg_fold.
-  - apply cfg_stream_rotateSegments.
-  - intros m' i. destruct (leading_stream _); [unfold upd_stream; cbn [set_stream m_cfg]|];
-      apply cfg_stream_rotateSegments.
+  unfold rotateSegments. rewrite cfg_rotate_others; [apply cfg_stream_rotateSegments|].
+  intros; apply cfg_stream_rotateSegments.
 Qed.
 
 Lemma cfg_adjust m sd : m_cfg (fmp4AdjustPartDuration m sd) = m_cfg m.
@@ -200,18 +205,10 @@ Section Traverse.
     GG m -> GG {| m_cfg := m_cfg m; m_tracks := tracks; m_streams := m_streams m; m_pending := pending;
                   m_sdurs := sdurs; m_adj := adj; m_freeze := freeze; m_paths := paths; m_errs := errs |}.
   Hypothesis H_create : forall m d ntp, GG m -> GG (createFirstSegment m d ntp).
-  Hypothesis H_rotp : forall m si d cn, GG m -> GG (stream_rotateParts m si d cn).
+  Hypothesis H_rotp : forall m si d, GG m -> GG (stream_rotateParts m si d true).
   Hypothesis H_rots : forall m si d ntp f, GG m -> GG (stream_rotateSegments m si d ntp f).
   Hypothesis H_copy : forall m i (l : stream) (both : bool),
-    GG m ->
-    GG (upd_stream m i (fun s =>
-         let x := st_mut s in
-         st_with s {| x_nextSeg := x_nextSeg x; x_nextPart := x_nextPart x;
-                      x_segments := x_segments x; x_open := x_open x;
-                      x_openpart := x_openpart x; x_init := x_init x;
-                      x_delcount := x_delcount x;
-                      x_target := if both then st_target l else x_target x;
-                      x_parttarget := st_parttarget l; x_evicted := x_evicted x |})).
+    GG m -> GG (upd_stream m i (copy_targets both l)).
   Hypothesis H_pws : forall m ti si smp m', GG m -> part_writeSample m ti si smp = Ok m' -> GG m'.
   Hypothesis H_ts : forall m si u size e inc, GG m -> GG (fst (ts_write m si u size e inc)).
 
@@ -226,22 +223,25 @@ Section Traverse.
     (forall m a, GG m -> GG (f m a)) -> forall m, GG m -> GG (fold_left f l m).
   Proof. intros Hf. induction l as [|a l IH]; intros m Hm; simpl; auto. Qed.
 
+  Lemma T_rotate_others m1 f both :
+    (forall m i, GG m -> GG (f m i)) -> GG m1 -> GG (rotate_others m1 f both).
+  Proof.
+    intros Hf H. unfold rotate_others. apply fold_T; [|exact H].
+    intros m i Hm. destruct (nth_error (m_streams m) i) as [s|]; [|exact Hm].
+    destruct (st_leading s); [exact Hm|].
+    destruct (leading_stream (f m i)); [apply H_copy|]; now apply Hf.
+  Qed.
+
   Lemma T_rotateParts m d : GG m -> GG (rotateParts m d).
   Proof.
-    intros H. unfold rotateParts. apply fold_T.
-    - intros m' i Hm'. destruct (leading_stream (stream_rotateParts m' i d true)) eqn:El.
-      + apply (H_copy _ i s false). now apply H_rotp.
-      + now apply H_rotp.
-    - now apply H_rotp.
+    intros H. unfold rotateParts. apply T_rotate_others; [|now apply H_rotp].
+    intros; now apply H_rotp.
   Qed.
 
   Lemma T_rotateSegments m d ntp f : GG m -> GG (rotateSegments m d ntp f).
   Proof.
-    intros H. unfold rotateSegments. apply fold_T.
-    - intros m' i Hm'. destruct (leading_stream (stream_rotateSegments m' i d ntp f)) eqn:El.
-      + apply (H_copy _ i s true). now apply H_rots.
-      + now apply H_rots.
-    - now apply H_rots.
+    intros H. unfold rotateSegments. apply T_rotate_others; [|now apply H_rots].
+    intros; now apply H_rots.
   Qed.
 
   Lemma T_adjust m sd : GG m -> GG (fmp4AdjustPartDuration m sd).
@@ -357,8 +357,8 @@ Section Lift.
   Variable P : cfg -> stream -> Prop.
 
   Hypothesis P_create : forall c s d ntp, P c s -> P c (stream_createFirst (c_variant c) s d ntp).
-  Hypothesis P_rotp : forall m si d cn,
-    Forall (P (m_cfg m)) (m_streams m) -> Forall (P (m_cfg m)) (m_streams (stream_rotateParts m si d cn)).
+  Hypothesis P_rotp : forall m si d,
+    Forall (P (m_cfg m)) (m_streams m) -> Forall (P (m_cfg m)) (m_streams (stream_rotateParts m si d true)).
   Hypothesis P_rots : forall m si d ntp f,
     Forall (P (m_cfg m)) (m_streams m) -> Forall (P (m_cfg m)) (m_streams (stream_rotateSegments m si d ntp f)).
   (* writes into the open segment / part: anything that keeps ids, times and the part list *)
@@ -375,6 +375,7 @@ Section Lift.
                       x_delcount := st_delcount s; x_target := st_target s;
                       x_parttarget := st_parttarget s; x_evicted := st_evicted s |}).
   Hypothesis P_targets : forall c s t pt,
+    st_leading s = false ->
     P c s ->
     P c (st_with s {| x_nextSeg := st_nextSeg s; x_nextPart := st_nextPart s; x_segments := st_segments s;
                       x_open := st_open s; x_openpart := st_openpart s; x_init := st_init s;
@@ -389,25 +390,19 @@ Section Lift.
     apply Forall_map. eapply Forall_impl; [|exact H]. intros s Hs. now apply P_create.
   Qed.
 
-  Lemma G_rotp m si d cn : G m -> G (stream_rotateParts m si d cn).
+  Lemma G_rotp m si d : G m -> G (stream_rotateParts m si d true).
   Proof. unfold G. rewrite cfg_stream_rotateParts. apply P_rotp. Qed.
 
   Lemma G_rots m si d ntp f : G m -> G (stream_rotateSegments m si d ntp f).
   Proof. unfold G. rewrite cfg_stream_rotateSegments. apply P_rots. Qed.
 
   Lemma G_copy_targets m i (l : stream) (both : bool) :
-    G m ->
-    G (upd_stream m i (fun s =>
-         let x := st_mut s in
-         st_with s {| x_nextSeg := x_nextSeg x; x_nextPart := x_nextPart x;
-                      x_segments := x_segments x; x_open := x_open x;
-                      x_openpart := x_openpart x; x_init := x_init x;
-                      x_delcount := x_delcount x;
-                      x_target := if both then st_target l else x_target x;
-                      x_parttarget := st_parttarget l; x_evicted := x_evicted x |})).
+    G m -> G (upd_stream m i (copy_targets both l)).
   Proof.
     unfold G, upd_stream. cbn [set_stream m_cfg m_streams]. intros H.
-    apply Forall_upd; [exact H|]. intros s _ Hs. cbn [st_mut x_nextSeg x_nextPart x_segments x_open
+    apply Forall_upd; [exact H|]. intros s _ Hs. unfold copy_targets.
+    destruct (st_leading s) eqn:El; [exact Hs|].
+    cbn [st_mut x_nextSeg x_nextPart x_segments x_open
       x_openpart x_init x_delcount x_target x_evicted]. now apply P_targets.
   Qed.
 
